@@ -9,7 +9,7 @@
    and Unit * f64 on products that are not integers representable as doubles. *)
 From Coq Require Import Reals ZArith Bool List.
 From Flocq Require Import Core.Core IEEE754.BinarySingleNaN.
-From HF Require Import MachInt GenConsts GenLeap GenUnits Duration Epoch F64 DurationF64 SignedNs DurationP F64P F64ExactP F64ErrP.
+From HF Require Import MachInt GenConsts GenLeap GenUnits Duration Epoch F64 DurationF64 SignedNs DurationP F64P F64ExactP F64ErrP F64MonoP.
 Open Scope Z_scope.
 
 Theorem C18_unit_times_float_total_and_canonical : forall u q, canon (unit_mul_f64 u q).
@@ -71,6 +71,12 @@ Theorem C18_to_unit_error : forall d u, canon d ->
   (Rabs (B2R (to_unit d u) - IZR (val d) / IZR (spec_unit_factor u))
    <= 5 * bpow radix2 (-53) * Rabs (IZR (val d) / IZR (spec_unit_factor u)) + bpow radix2 (-49) / (IZR (spec_unit_factor u) / 1000000000))%R.
 Proof. exact to_unit_err. Qed.
+
+(* a longer duration never reads as fewer seconds, nor as fewer of any unit (both results are finite by the two theorems above) *)
+Theorem C18_to_seconds_monotone : forall a b, canon a -> canon b -> val a <= val b -> (B2R (to_seconds a) <= B2R (to_seconds b))%R.
+Proof. exact to_seconds_monotone. Qed.
+Theorem C18_to_unit_monotone : forall a b u, canon a -> canon b -> val a <= val b -> (B2R (to_unit a u) <= B2R (to_unit b u))%R.
+Proof. exact to_unit_monotone. Qed.
 
 Example C18_nonvacuous :
   dur_mul_f64 (mkD 0 1000000000) 9223372036854775808 = D_ZERO /\           (* 1 s * -0.0 *)
